@@ -112,6 +112,8 @@ theorem clone_vals_old (h : Heap α) (c : Handle) (m : CloneMode) (i : Nat) (hi 
   · simp only [Heap.clone]; exact dupVals_old _ _ _ hi
   · simp only [Heap.clone]
     rw [dupVals_old _ _ _ (by rw [dupIdxs_vals]; exact hi), dupIdxs_vals]
+  · simp only [Heap.clone]
+    rw [dupVals_old _ _ _ (by rw [dupIdxs_vals]; exact hi), dupIdxs_vals]
 
 theorem clone_snd_vals (h : Heap α) (c : Handle) (m : CloneMode) (hm : m ≠ .shallow) :
     (h.clone c m).2.vals = List.range' h.vals.size c.vals.length := by
@@ -119,6 +121,7 @@ theorem clone_snd_vals (h : Heap α) (c : Handle) (m : CloneMode) (hm : m ≠ .s
   · exact absurd rfl hm
   · simp only [Heap.clone]; exact dupVals_ids _ _
   · simp only [Heap.clone]; exact dupVals_ids _ _
+  · simp only [Heap.clone]; rw [dupVals_ids, dupIdxs_vals]
   · simp only [Heap.clone]; rw [dupVals_ids, dupIdxs_vals]
 
 theorem clone_vals_new (h : Heap α) (c : Handle) (hok : Handle.okIn c h) (m : CloneMode) (hm : m ≠ .shallow)
@@ -132,9 +135,17 @@ theorem clone_vals_new (h : Heap α) (c : Handle) (hok : Handle.okIn c h) (m : C
     have := dupVals_new (h.dupIdxs c.idxs).1 c.vals t ht (by rw [dupIdxs_vals]; exact hok.1)
     rw [dupIdxs_vals] at this
     exact this
+  · simp only [Heap.clone]
+    have := dupVals_new (h.dupIdxs c.idxs).1 c.vals t ht (by rw [dupIdxs_vals]; exact hok.1)
+    rw [dupIdxs_vals] at this
+    exact this
 
 theorem clone_snd_idxs_deep (h : Heap α) (c : Handle) :
     (h.clone c .deep).2.idxs = List.range' h.idxs.size c.idxs.length := by
+  simp only [Heap.clone]; exact dupIdxs_ids _ _
+
+theorem clone_snd_idxs_allocate (h : Heap α) (c : Handle) :
+    (h.clone c .allocate).2.idxs = List.range' h.idxs.size c.idxs.length := by
   simp only [Heap.clone]; exact dupIdxs_ids _ _
 
 /-! ### 3. the clauses -/
@@ -244,7 +255,7 @@ theorem clone_weak_shares_idx : (h.clone c .weak).2.idxs = c.idxs ∧ (h.clone c
   ⟨rfl, rfl⟩
 
 omit hok in
-/-- fresh value ids (weak, layout, deep): disjoint from every id valid in `h` -/
+/-- fresh value ids (weak, layout, deep, allocate): disjoint from every id valid in `h` -/
 theorem clone_fresh_vals (m : CloneMode) (hm : m ≠ .shallow) : ∀ id ∈ (h.clone c m).2.vals, h.vals.size ≤ id := by
   intro id hid
   rw [clone_snd_vals _ _ _ hm, List.mem_range'_1] at hid
@@ -268,7 +279,24 @@ theorem clone_deep_fresh_idx : ∀ id ∈ (h.clone c .deep).2.idxs, h.idxs.size 
   rw [clone_snd_idxs_deep, List.mem_range'_1] at hid
   exact hid.1
 
-/-- value independence (deep, weak, layout): a write through either side is invisible on the other side -/
+omit hok in
+theorem clone_allocate_fresh_vals : ∀ id ∈ (h.clone c .allocate).2.vals, h.vals.size ≤ id :=
+  clone_fresh_vals h c .allocate (by decide)
+
+omit hok in
+theorem clone_allocate_fresh_idx : ∀ id ∈ (h.clone c .allocate).2.idxs, h.idxs.size ≤ id := by
+  intro id hid
+  rw [clone_snd_idxs_allocate, List.mem_range'_1] at hid
+  exact hid.1
+
+omit hok in
+/-- `Allocate`: all arrays of the clone are fresh -/
+theorem clone_allocate_fresh :
+    (∀ id ∈ (h.clone c .allocate).2.vals, h.vals.size ≤ id) ∧
+    (∀ id ∈ (h.clone c .allocate).2.idxs, h.idxs.size ≤ id) :=
+  ⟨clone_allocate_fresh_vals h c, clone_allocate_fresh_idx h c⟩
+
+/-- value independence (deep, allocate, weak, layout): a write through either side is invisible on the other side -/
 theorem clone_independent (m : CloneMode) (hm : m ≠ .shallow) (k k' : Nat) (v dflt : α) :
     let h1 := (h.clone c m).1; let d := (h.clone c m).2
     (h1.write c k v).read d k' dflt = h1.read d k' dflt ∧ (h1.write d k v).read c k' dflt = h1.read c k' dflt := by
@@ -352,7 +380,7 @@ theorem cloneObservation_table [DecidableEq α] (hok : Handle.okIn c h) (m : Clo
       match m with
       | .shallow => (!c.vals.isEmpty, !c.idxs.isEmpty, decide (0 < h.valSize c), decide (0 < h.valSize c))
       | .layout | .weak => (false, !c.idxs.isEmpty, false, false)
-      | .deep => (false, false, false, false) := by
+      | .deep | .allocate => (false, false, false, false) := by
   have _ := hmd
   cases m with
   | shallow => exact cloneObservation_shallow h c mark dflt
@@ -364,6 +392,9 @@ theorem cloneObservation_table [DecidableEq α] (hok : Handle.okIn c h) (m : Clo
       self_beq_flag]
   | deep =>
     rw [cloneObservation_nonshallow h c hok .deep (by decide) mark dflt hmark, clone_snd_idxs_deep,
+      ne_range'_of_lt _ _ hok.2]
+  | allocate =>
+    rw [cloneObservation_nonshallow h c hok .allocate (by decide) mark dflt hmark, clone_snd_idxs_allocate,
       ne_range'_of_lt _ _ hok.2]
 
 end
